@@ -97,8 +97,10 @@ def oracle_sa(cap, lines):
         if name == "set": a[int(t[1])] = int(t[2])
         elif name == "get":
             if _ret(l) != str(a[int(t[1])]): return "[%s] = %s, last stored %d" % (t[1], _ret(l), a[int(t[1])])
-        elif name == "fill": a = [int(t[1])] * cap
+        elif name in ("fill", "ctorfill"): a = [int(t[1])] * cap
         elif name == "clear": a = [0] * cap
+        elif name == "isempty":
+            if _ret(l) != ("1" if all(x == 0 for x in a) else "0"): return "empty() = %s for items %s" % (_ret(l), a)
         elif name != "init": continue
         if d.get("items") != ",".join(map(str, a)): return "after '%s' items are %s, expected %s" % (" ".join(t[:3]), d.get("items"), a)
         if d.get("count") != str(cap): return "count() = %s for capacity %d" % (d.get("count"), cap)
